@@ -14,6 +14,7 @@ theorem const_EOL_eq : Gen.LexerTmpl.const_EOL = Ref.LexerTmpl.const_EOL := rfl
 theorem const_COMMENT_eq : Gen.LexerTmpl.const_COMMENT = Ref.LexerTmpl.const_COMMENT := rfl
 theorem body_New_eq : Gen.LexerTmpl.body_New = Ref.LexerTmpl.body_New := rfl
 theorem body_NextToken_eq : Gen.LexerTmpl.body_NextToken = Ref.LexerTmpl.body_NextToken := rfl
+theorem body_scanToken_eq : Gen.LexerTmpl.body_scanToken = Ref.LexerTmpl.body_scanToken := rfl
 theorem body_evalToken_eq : Gen.LexerTmpl.body_evalToken = Ref.LexerTmpl.body_evalToken := rfl
 theorem tmpl_evalDFA_eq : Gen.LexerTmpl.tmpl_evalDFA = Ref.LexerTmpl.tmpl_evalDFA := rfl
 theorem tmpl_advanceDFA_eq : Gen.LexerTmpl.tmpl_advanceDFA = Ref.LexerTmpl.tmpl_advanceDFA := rfl
@@ -28,9 +29,10 @@ theorem template_as_modelled :
     Gen.LexerTmpl.const_COMMENT = Ref.LexerTmpl.const_COMMENT ∧
     Gen.LexerTmpl.body_New = Ref.LexerTmpl.body_New ∧
     Gen.LexerTmpl.body_NextToken = Ref.LexerTmpl.body_NextToken ∧
+    Gen.LexerTmpl.body_scanToken = Ref.LexerTmpl.body_scanToken ∧
     Gen.LexerTmpl.body_evalToken = Ref.LexerTmpl.body_evalToken ∧
     Gen.LexerTmpl.tmpl_evalDFA = Ref.LexerTmpl.tmpl_evalDFA ∧
     Gen.LexerTmpl.tmpl_advanceDFA = Ref.LexerTmpl.tmpl_advanceDFA :=
-  ⟨const_errorState_eq, const_bufferSize_eq, const_ERR_eq, const_WS_eq, const_EOL_eq, const_COMMENT_eq, body_New_eq, body_NextToken_eq, body_evalToken_eq, tmpl_evalDFA_eq, tmpl_advanceDFA_eq⟩
+  ⟨const_errorState_eq, const_bufferSize_eq, const_ERR_eq, const_WS_eq, const_EOL_eq, const_COMMENT_eq, body_New_eq, body_NextToken_eq, body_scanToken_eq, body_evalToken_eq, tmpl_evalDFA_eq, tmpl_advanceDFA_eq⟩
 
 end Emerge.Inst.LexerTmpl
